@@ -209,6 +209,9 @@ type stashRefConst struct {
 
 func (r *stashRefConst) set(v Value) {
 	if r.strictConst {
+		if (*r.v)[r.idx] == nil {
+			panic(errAccessBeforeInit)
+		}
 		panic(errAssignToConst)
 	}
 }
